@@ -403,6 +403,10 @@ impl CompassApp {
             ops::apply_load_balancing_policy(&processed_inputs, parallelism, 1.0)?;
         let mut error_inputs: Vec<Value> = error_inputs_nested.into_iter().flatten().collect();
         error_inputs.extend(weight_errors);
+        // responses produced before the search are part of the output too
+        for error_response in error_inputs.iter_mut() {
+            response_writer.write_response(error_response)?;
+        }
         if load_balanced_inputs.is_empty() {
             return Ok(error_inputs);
         }
